@@ -25,7 +25,10 @@ MODULES = ["PanderaModel.Props.C16"]
 
 ATTRS = ["a", "b", "c", "d"]
 DTYPES = ["int", "float", "str"]
-PRED = {"gt-5": "s > -5", "lt99": "s < 99", "ne7": "s != 7", "notnull": "s.notna()", "len": "s.astype(str).str.len() < 9"}
+PRED = {"gt-5": "s > -5", "lt99": "s < 99", "ne7": "s != 7", "notnull": "s.notna()", "len": "s.astype(str).str.len() < 9",
+        # reads a constant of the class the check is *called for* (every class of a chain defines its own `_limit`)
+        "lim": "s < cls._limit"}
+LIMITS = [200, 100, 5, 2, 1]
 DFPRED = {"rows": "len(df) < 50", "cols": "df.shape[1] < 9"}
 PARSE = {"+1": "s + 1", "*2": "s * 2", "id": "s"}
 CONFIG_OPTS = {"strict": [True, False], "ordered": [True, False], "coerce": [True, False],
@@ -105,7 +108,7 @@ def field_expr(f):
 
 def class_source(cls, base, pol):
     lines = [f"class {cls['cname']}({base}):"]
-    body = []
+    body = [f"_limit = {LIMITS[int(cls['cname'][1:])]}"]
     for f in cls["fields"]:
         ann = None
         if f["ann"] is not None:
@@ -125,7 +128,8 @@ def class_source(cls, base, pol):
                                                 "lt99": "s.lazyframe.select(pl.col(s.key) < 99)",
                                                 "ne7": "s.lazyframe.select(pl.col(s.key) != 7)",
                                                 "notnull": "s.lazyframe.select(pl.col(s.key).is_not_null())",
-                                                "len": "s.lazyframe.select(pl.col(s.key).cast(pl.String).str.len_chars() < 9)"}[m["pred"]]
+                                                "len": "s.lazyframe.select(pl.col(s.key).cast(pl.String).str.len_chars() < 9)",
+                                                "lim": "s.lazyframe.select(pl.col(s.key) < cls._limit)"}[m["pred"]]
         body += [f"@pa.check({tg}{kw}, description={payload_check(m)!r})", f"def {m['mname']}(cls, s):", f"    return {expr}"]
     for m in cls["parsers"]:
         kw = f", name={m['name']!r}" if m["name"] else ""
@@ -270,6 +274,11 @@ def probe_frames(spec_fp, rng):
             b = good.copy()
             b[c["name"]] = bad[c["dtype"]]
             frames.append(b)
+        # values between the per-class limits of the `lim` predicate
+        for hi in ((150, 50, 4) if c["dtype"] == "int64" else (150.5, 50.5, 4.5) if c["dtype"] == "float64" else ()):
+            b = good.copy()
+            b[c["name"]] = [good[c["name"]].iloc[0], good[c["name"]].iloc[1], hi]
+            frames.append(b)
     if len(good.columns):
         frames.append(good.iloc[:, ::-1])
         frames.append(good.drop(columns=[good.columns[0]]))
@@ -297,8 +306,9 @@ def verdict(validate, df, pol):
             return "raise:" + n
 
 
-def object_api_schema(case, spec, pol):
-    """the object-API schema built from the specification (the Lean model's compiled schema)"""
+def object_api_schema(case, spec, pol, target=None):
+    """the object-API schema built from the specification (the Lean model's compiled schema) of class number `target`"""
+    LIM = LIMITS[len(case["chain"]) - 1 if target is None else target]
     if pol:
         import pandera.polars as pa
         import polars as pl
@@ -323,9 +333,10 @@ def object_api_schema(case, spec, pol):
         if pol:
             src = {"gt-5": "s.lazyframe.select(pl.col(s.key) > -5)", "lt99": "s.lazyframe.select(pl.col(s.key) < 99)",
                    "ne7": "s.lazyframe.select(pl.col(s.key) != 7)", "notnull": "s.lazyframe.select(pl.col(s.key).is_not_null())",
-                   "len": "s.lazyframe.select(pl.col(s.key).cast(pl.String).str.len_chars() < 9)"}[m["pred"]]
+                   "len": "s.lazyframe.select(pl.col(s.key).cast(pl.String).str.len_chars() < 9)",
+                   "lim": f"s.lazyframe.select(pl.col(s.key) < {LIM})"}[m["pred"]]
             return pa.Check(eval("lambda s: " + src, {"pl": pl}), name=name, description=payload)  # noqa: S307
-        return pa.Check(eval("lambda s: " + PRED[m["pred"]]), name=name, description=payload)  # noqa: S307
+        return pa.Check(eval("lambda s: " + PRED[m["pred"]].replace("cls._limit", str(LIM))), name=name, description=payload)  # noqa: S307
 
     cols = {}
     for c in spec["columns"]:
@@ -426,23 +437,24 @@ def run_cases(rep, cases, rng):
                 rep.property_failure(c, "the base class compiles differently when its subclasses do not exist")
                 failed = True
         # 5. verdicts: Model.validate vs the object-API schema of the specification
-        if not failed:
-            spec = a["schemas"][-1]
-            if not isinstance(spec, str):
-                try:
-                    S = object_api_schema(c, spec, pol)
-                except Exception as e:  # noqa: BLE001
-                    rep.count("object-api-unbuildable:" + type(e).__name__)
-                    S = None
-                if S is not None:
-                    M = ns[names[-1]]
-                    for df in probe_frames(fp_model(spec), rng):
-                        v1, v2 = verdict(M.validate, df, pol), verdict(S.validate, df, pol)
-                        rep.count(f"{c['backend']}:verdict:" + v1.split(":")[0])
-                        if v1 != v2:
-                            rep.property_failure(c, f"Model.validate gives {v1[:90]}, the object-API schema {v2[:90]}")
-                            failed = True
-                            break
+        for ci in (range(len(names)) if not failed else ()):
+            spec = a["schemas"][ci]
+            if failed or isinstance(spec, str):
+                continue
+            try:
+                S = object_api_schema(c, spec, pol, target=ci)
+            except Exception as e:  # noqa: BLE001
+                rep.count("object-api-unbuildable:" + type(e).__name__)
+                continue
+            M = ns[names[ci]]
+            for df in probe_frames(fp_model(spec), rng):
+                v1, v2 = verdict(M.validate, df, pol), verdict(S.validate, df, pol)
+                rep.count(f"{c['backend']}:verdict:" + v1.split(":")[0])
+                if v1 != v2:
+                    rep.property_failure(c, f"class {names[ci]}: Model.validate gives {v1[:90]}, the object-API schema "
+                                            f"of its specification {v2[:90]}")
+                    failed = True
+                    break
 
 
 def run(tier, replay=None):
